@@ -260,14 +260,18 @@ ODL_UNITS = ["m", "KM", "m/s", "km**2", "m*s**-1", "deg", "pixel", "m/s/s",
              "kg*m**2", "DEGREES", "W/(m**2)", "km\t/ s", "m /\ts", "m / s"]
 PVL_UNITS = ODL_UNITS + ["m s", "km per s", "%", "a.b", "deg C", "1/s", "µm",
                          "m^2", "'", "it's", "a=b", "(", "#", "m\n/s", "", "m>", "<m",
-                         "a -\n b", "/* c */", "x # y", " m ", "m ", "\tm", "m\n", "\xa0m"]
+                         "a -\n b", "/* c */", "x # y", " m ", "m ", "\tm", "m\n", "\xa0m",
+                         # edges that are white space for Python, not for the grammar
+                         "m\xa0", "\xa0%", "deg\xa0", "\xa0", "m\x85"]
 
 
 @functools.lru_cache(maxsize=None)
 def units(dialect):
     if dialect in ODL_FAMILY:
         return st.sampled_from(ODL_UNITS + [" m ", "m ", "\tm", "m s", "bad unit!", "3m", "m**x", "m\n/s",
-                                            "m\r\n/s", "km /\x0cs", "", " ", "m>", "<m"])
+                                            "m\r\n/s", "km /\x0cs", "", " ", "m>", "<m",
+                                            # ASCII separators: white space for Python only
+                                            "m\x1c", "\x1fm", "\x1dkm\x1e", "\x1c"])
     return st.sampled_from(PVL_UNITS)
 
 
@@ -354,7 +358,12 @@ def module_items(dialect, depth=0):
             newval = draw(st.one_of(st.just(items[i][1]), val))
             if isinstance(items[i][1], dict) and ("grp" in items[i][1] or
                                                   "obj" in items[i][1]):
-                newval = items[i][1]
+                if draw(st.booleans()):
+                    newval = items[i][1]
+                else:
+                    # an assignment that has the name of a block (INSTRUMENT = HIRISE
+                    # next to OBJECT = INSTRUMENT), before or after it
+                    newval = draw(st.sampled_from([1, "HIRISE", 2.5, "two words"]))
             items.insert(j, [items[i][0], newval])
         if items and draw(st.integers(0, 7)) == 0:
             # a parameter whose *name* is spelled exactly like one of the module's string
